@@ -442,6 +442,31 @@ def list_order_effect(e: ast.AST) -> Optional[str]:
     return None
 
 
+def mapping_key_helpers(dmod):
+    """[(qualified name of the user, name of the helper, the helper)]: functions of the module whose result is used as a key of a mapping"""
+    out = []
+    for q, f in dmod.functions.items():
+        key_funcs = set()
+        for n in source.walk_own(f):
+            keys = []
+            if isinstance(n, ast.Subscript):
+                keys.append(n.slice)
+            if isinstance(n, ast.Compare) and len(n.ops) == 1 and isinstance(n.ops[0], (ast.In, ast.NotIn)):
+                keys.append(n.left)
+            for k in keys:
+                if isinstance(k, ast.Name):
+                    for v in match.assigned_value(f, k.id):
+                        if isinstance(v, ast.Call) and isinstance(v.func, ast.Name):
+                            key_funcs.add(v.func.id)
+                elif isinstance(k, ast.Call) and isinstance(k.func, ast.Name):
+                    key_funcs.add(k.func.id)
+        for kf in sorted(key_funcs):
+            helper = dmod.functions.get("%s.%s" % (q, kf)) or dmod.functions.get(kf)
+            if helper is not None:
+                out.append((q, kf, helper))
+    return out
+
+
 def run(ctx) -> None:
     ctx.explanation = (
         "Order-taint (ORD) over every function of conf.py, flowir.py, dsl.py and graph.py: sets, set operations, functions "
@@ -745,7 +770,9 @@ def run(ctx) -> None:
             n_keys += 1
             ctx.analysed(helper)
             order_free = all(isinstance(r, ast.Call) and call_name(r) in ("frozenset", "set") for r in rets)
-            unsorted = [(x, it) for (x, it) in its if not (isinstance(it, ast.Call) and call_name(it) == "sorted")]
+            unsorted = [(x, it) for (x, it) in its if not (isinstance(it, ast.Call) and call_name(it) == "sorted")
+                        and not (isinstance(x, (ast.GeneratorExp, ast.ListComp, ast.SetComp)) and any(
+                            isinstance(a_, ast.Call) and call_name(a_) == "sorted" and a_.args and a_.args[0] is x for a_ in source.ancestors(x)))]
             ok = order_free or not unsorted
             ctx.ob("C15.R7-identity-keys-are-canonical", unsorted[0][1] if unsorted else helper, ok,
                    "%s, whose result keys a mapping in %s, enumerates its argument in sorted order" % (kf, q) if ok else
